@@ -21,7 +21,7 @@ PROPS = ALL_PROPS
 CLAIMED = {k: v for k, v in ALL_PROPS.items() if k in READY}
 
 # commits in /repo that add the verif-tagged hook files (add-only)
-HOOK_COMMITS = ["e1d1440", "727a4a0", "ea54d78", "e665bd8", "669fc16", "60e2860", "80c9a9f"]
+HOOK_COMMITS = ["e1d1440", "727a4a0", "ea54d78", "e665bd8", "669fc16", "60e2860", "80c9a9f", "883bec4", "acf8ae6"]
 
 # reasons for properties that are not claimed (yet)
 PENDING = {}
